@@ -258,8 +258,11 @@ def translate_lbasis(model: Model, info: ElementInfo) -> None:
         Interp(model).call(lb, [coord_point(info.dim), info.nbfun], {},
                            self_obj=Obj(c))
         info.else_raises = False
-    except Raised:
-        info.else_raises = True
+    except Raised as e:
+        # reaching the error helper / a raise statement counts; dying with
+        # an UnboundLocalError on the fall-through path does not (that is
+        # the 'else' branch missing, as before this was modelled)
+        info.else_raises = not str(e.what).startswith("UnboundLocalError")
     except Unsupported:
         # e.g. falls through to 'return phi, dphi' with phi never bound:
         # at run time that is an UnboundLocalError, not the index error
